@@ -239,7 +239,7 @@ func contentWrites(v ssa.Value) []cwrite {
 				}
 			case *ssa.Call:
 				if b, ok := x.Call.Value.(*ssa.Builtin); ok {
-					switch b.Name() {
+					switch nm(b) {
 					case "delete":
 						if len(x.Call.Args) > 0 && x.Call.Args[0] == v {
 							out = append(out, cwrite{x, "map delete"})
@@ -293,7 +293,7 @@ func contentReads(v ssa.Value) []cwrite {
 				}
 			case *ssa.Call:
 				if b, ok := x.Call.Value.(*ssa.Builtin); ok {
-					switch b.Name() {
+					switch nm(b) {
 					case "copy", "append":
 						if len(x.Call.Args) > 1 && x.Call.Args[1] == v {
 							out = append(out, cwrite{x, "copy out of"})
